@@ -9,7 +9,7 @@ use crate::trace::{ev_json, Batch, Names, Rng};
 use ractor::factory::queues::{DefaultQueue, PriorityManager, PriorityQueue, Queue, StandardPriority};
 use ractor::factory::routing::{CustomHashFunction, CustomRouting, KeyPersistentRouting, QueuerRouting, RoundRobinRouting, Router, StickyQueuerRouting};
 use ractor::factory::{
-    DiscardHandler, DiscardMode, DiscardReason, DiscardSettings, Factory, FactoryArguments, FactoryLifecycleHooks, FactoryMessage, Job,
+    DiscardHandler, DiscardMode, MessageRetryStrategy, RetriableMessage, DiscardReason, DiscardSettings, Factory, FactoryArguments, FactoryLifecycleHooks, FactoryMessage, Job,
     JobOptions, LeakyBucketRateLimiter, RateLimitedRouter, RateLimiter, UpdateSettingsRequest, WorkerBuilder, WorkerMessage, WorkerStartContext,
 };
 use ractor::verif::{self, Val};
@@ -182,6 +182,8 @@ pub enum Beh {
     /// report completion, then stop itself gracefully; its post_stop takes a few virtual ms, during which the
     /// actor is closed for messages (status Stopping) while the factory has not been told yet
     StopAfter,
+    /// panic the first time the job is started, complete it on a later attempt (retriable jobs)
+    PanicFirst,
 }
 
 pub struct JobMsg {
@@ -189,8 +191,14 @@ pub struct JobMsg {
     pub beh: Beh,
     pub yields: u8,
     pub sleep_ms: u64,
+    /// how often a worker has started this job (a retried job is the same message object)
+    pub tries: u32,
+    /// call_job: the worker answers here when it completed the job
+    pub reply: Option<RpcReplyPort<i64>>,
 }
 impl Message for JobMsg {}
+/// every job of the harness travels as a RetriableMessage (strategy NoRetry for ordinary jobs)
+pub type HMsg = RetriableMessage<u64, JobMsg>;
 
 pub const MAXW: usize = 4;
 pub const KEYS: [u64; 3] = [1, 2, 3];
@@ -198,6 +206,10 @@ pub const KEYS: [u64; 3] = [1, 2, 3];
 #[derive(Clone, Debug)]
 pub enum COp {
     Submit { id: i64, key: u64, ttl: Option<u64>, port: bool, beh: Beh, yields: u8, sleep_ms: u64 },
+    /// a retriable job (RetriableMessage::from_job + retry hook), `retries` = MessageRetryStrategy::Count
+    SubmitRetriable { id: i64, key: u64, ttl: Option<u64>, retries: usize, beh: Beh, sleep_ms: u64 },
+    /// call_job / call_job_with_options: dispatch and wait for the worker's answer
+    Call { id: i64, key: u64, ttl: Option<u64>, beh: Beh, sleep_ms: u64 },
     Adjust(usize),
     Drain,
     Update { limit: Option<(usize, bool)>, wc: Option<usize> }, // (limit, newest?)
@@ -255,7 +267,9 @@ fn obs(label: &str, d: i64, kv: Vec<(String, Val)>) {
 }
 
 fn tagger(v: &dyn std::any::Any) -> i64 {
-    if let Some(m) = v.downcast_ref::<JobMsg>() {
+    if let Some(m) = v.downcast_ref::<HMsg>() {
+        m.message.as_ref().map(|x| x.id).unwrap_or(-1)
+    } else if let Some(m) = v.downcast_ref::<JobMsg>() {
         m.id
     } else if let Some(k) = v.downcast_ref::<u64>() {
         *k as i64
@@ -272,16 +286,16 @@ struct HWorker {
 struct HWState {
     wid: usize,
     inc: i64,
-    factory: ActorRef<FactoryMessage<u64, JobMsg>>,
+    factory: ActorRef<FactoryMessage<u64, HMsg>>,
     /// how long post_stop takes (set by a StopAfter job)
     close_ms: u64,
 }
 
 #[cfg_attr(feature = "asynctrait", ractor::async_trait)]
 impl Actor for HWorker {
-    type Msg = WorkerMessage<u64, JobMsg>;
+    type Msg = WorkerMessage<u64, HMsg>;
     type State = HWState;
-    type Arguments = WorkerStartContext<u64, JobMsg, ()>;
+    type Arguments = WorkerStartContext<u64, HMsg, ()>;
 
     async fn pre_start(&self, myself: ActorRef<Self::Msg>, ctx: Self::Arguments) -> Result<HWState, ActorProcessingErr> {
         let inc = {
@@ -302,33 +316,48 @@ impl Actor for HWorker {
             WorkerMessage::FactoryPing(t) => {
                 let _ = st.factory.cast(FactoryMessage::WorkerPong(st.wid, t.elapsed()));
             }
-            WorkerMessage::Dispatch(job) => {
-                let (id, key) = (job.msg.id, job.key);
+            WorkerMessage::Dispatch(mut job) => {
+                let key = job.key;
+                let (id, mut beh, yields, sleep_ms) = {
+                    let m = job.msg.message.as_mut().expect("a dispatched job carries its payload");
+                    m.tries += 1;
+                    (m.id, m.beh, m.yields, m.sleep_ms)
+                };
+                if beh == Beh::PanicFirst {
+                    beh = if job.msg.message.as_ref().map(|m| m.tries).unwrap_or(0) <= 1 { Beh::Panic } else { Beh::Ok };
+                }
                 let base = |st: &HWState| vec![kvi("inc", st.inc), kvi("wid", st.wid as i64), kvi("key", key as i64), kvi("id", id)];
                 obs("obs.w_start", 0, base(st));
-                for _ in 0..job.msg.yields {
+                for _ in 0..yields {
                     yield_once().await;
                 }
-                if job.msg.sleep_ms > 0 {
-                    ractor::concurrency::sleep(Duration::from_millis(job.msg.sleep_ms)).await;
+                if sleep_ms > 0 {
+                    ractor::concurrency::sleep(Duration::from_millis(sleep_ms)).await;
                 }
                 let end = |st: &HWState, how: &str, d: i64| {
                     let mut kv = base(st);
                     kv.push(kvs("how", how));
                     obs("obs.w_end", d, kv);
                 };
-                match job.msg.beh {
+                match beh {
+                    Beh::PanicFirst => unreachable!(),
                     Beh::Ok => {
+                        if let Some(p) = job.msg.message.as_mut().and_then(|m| m.reply.take()) {
+                            let _ = p.send(id);
+                        }
+                        job.msg.completed();
                         let ok = st.factory.cast(FactoryMessage::Finished(st.wid, key)).is_ok();
                         end(st, "ok", i64::from(ok));
                     }
                     Beh::KillAfter => {
+                        job.msg.completed();
                         let ok = st.factory.cast(FactoryMessage::Finished(st.wid, key)).is_ok();
                         end(st, "ok", i64::from(ok));
                         myself.kill();
                         obs("obs.w_kill", 0, vec![kvi("inc", st.inc)]);
                     }
                     Beh::StopAfter => {
+                        job.msg.completed();
                         let ok = st.factory.cast(FactoryMessage::Finished(st.wid, key)).is_ok();
                         end(st, "ok", i64::from(ok));
                         st.close_ms = 6 + (id as u64 % 3) * 7;
@@ -374,15 +403,15 @@ impl WorkerBuilder<HWorker, ()> for HBuilder {
 }
 
 struct HDiscard;
-impl DiscardHandler<u64, JobMsg> for HDiscard {
-    fn discard(&self, reason: DiscardReason, job: &mut Job<u64, JobMsg>) {
+impl DiscardHandler<u64, HMsg> for HDiscard {
+    fn discard(&self, reason: DiscardReason, job: &mut Job<u64, HMsg>) {
         let r = match reason {
             DiscardReason::TtlExpired => "ttl",
             DiscardReason::Loadshed => "loadshed",
             DiscardReason::Shutdown => "shutdown",
             DiscardReason::RateLimited => "ratelimited",
         };
-        obs("obs.discard", 0, vec![kvi("id", job.msg.id), kvs("reason", r)]);
+        obs("obs.discard", 0, vec![kvi("id", tagger(&job.msg)), kvs("reason", r)]);
     }
 }
 
@@ -390,9 +419,9 @@ struct HHooks {
     yields: bool,
 }
 #[cfg_attr(feature = "asynctrait", ractor::async_trait)]
-impl FactoryLifecycleHooks<u64, JobMsg> for HHooks {
+impl FactoryLifecycleHooks<u64, HMsg> for HHooks {
     #[cfg(not(feature = "asynctrait"))]
-    fn on_factory_started(&self, _f: ActorRef<FactoryMessage<u64, JobMsg>>) -> futures::future::BoxFuture<'_, Result<(), ActorProcessingErr>> {
+    fn on_factory_started(&self, _f: ActorRef<FactoryMessage<u64, HMsg>>) -> futures::future::BoxFuture<'_, Result<(), ActorProcessingErr>> {
         Box::pin(async move {
             obs("obs.hook", 0, vec![kvs("name", "started")]);
             Ok(())
@@ -406,7 +435,7 @@ impl FactoryLifecycleHooks<u64, JobMsg> for HHooks {
         })
     }
     #[cfg(not(feature = "asynctrait"))]
-    fn on_factory_draining(&self, _f: ActorRef<FactoryMessage<u64, JobMsg>>) -> futures::future::BoxFuture<'_, Result<(), ActorProcessingErr>> {
+    fn on_factory_draining(&self, _f: ActorRef<FactoryMessage<u64, HMsg>>) -> futures::future::BoxFuture<'_, Result<(), ActorProcessingErr>> {
         let y = self.yields;
         Box::pin(async move {
             obs("obs.hook", 0, vec![kvs("name", "draining")]);
@@ -438,7 +467,7 @@ impl PriorityManager<u64, StandardPriority> for HPrio {
         Some(StandardPriority::from(prio_of(*key)))
     }
 }
-type PQ = PriorityQueue<u64, JobMsg, StandardPriority, HPrio, 5>;
+type PQ = PriorityQueue<u64, HMsg, StandardPriority, HPrio, 5>;
 
 fn dsettings(l: Option<(usize, bool)>) -> DiscardSettings {
     match l {
@@ -447,12 +476,12 @@ fn dsettings(l: Option<(usize, bool)>) -> DiscardSettings {
     }
 }
 
-async fn start_with<R, Q>(sc: &FScn, w: &W, router: R, queue: Q) -> Option<ActorRef<FactoryMessage<u64, JobMsg>>>
+async fn start_with<R, Q>(sc: &FScn, w: &W, router: R, queue: Q) -> Option<ActorRef<FactoryMessage<u64, HMsg>>>
 where
-    R: Router<u64, JobMsg>,
-    Q: Queue<u64, JobMsg>,
+    R: Router<u64, HMsg>,
+    Q: Queue<u64, HMsg>,
 {
-    let def = Factory::<u64, JobMsg, (), HWorker, R, Q>::default();
+    let def = Factory::<u64, HMsg, (), HWorker, R, Q>::default();
     let args = FactoryArguments {
         num_initial_workers: sc.workers,
         queue,
@@ -471,15 +500,15 @@ where
     }
 }
 
-async fn start_q<R: Router<u64, JobMsg>>(sc: &FScn, w: &W, router: R) -> Option<ActorRef<FactoryMessage<u64, JobMsg>>> {
+async fn start_q<R: Router<u64, HMsg>>(sc: &FScn, w: &W, router: R) -> Option<ActorRef<FactoryMessage<u64, HMsg>>> {
     if sc.prioq {
         start_with(sc, w, router, PQ::new(HPrio { nd: sc.nd_keys.clone() })).await
     } else {
-        start_with(sc, w, router, DefaultQueue::<u64, JobMsg>::default()).await
+        start_with(sc, w, router, DefaultQueue::<u64, HMsg>::default()).await
     }
 }
 
-async fn start_rl<R: Router<u64, JobMsg>>(sc: &FScn, w: &W, router: R) -> Option<ActorRef<FactoryMessage<u64, JobMsg>>> {
+async fn start_rl<R: Router<u64, HMsg>>(sc: &FScn, w: &W, router: R) -> Option<ActorRef<FactoryMessage<u64, HMsg>>> {
     match sc.rl {
         None => start_q(sc, w, router).await,
         Some((refill, iv, max, initial)) => {
@@ -489,31 +518,39 @@ async fn start_rl<R: Router<u64, JobMsg>>(sc: &FScn, w: &W, router: R) -> Option
     }
 }
 
-async fn start_factory(sc: &FScn, w: &W) -> Option<ActorRef<FactoryMessage<u64, JobMsg>>> {
+async fn start_factory(sc: &FScn, w: &W) -> Option<ActorRef<FactoryMessage<u64, HMsg>>> {
     match sc.routing {
-        Routing::Queuer => start_rl(sc, w, QueuerRouting::<u64, JobMsg>::default()).await,
-        Routing::Sticky => start_rl(sc, w, StickyQueuerRouting::<u64, JobMsg>::default()).await,
-        Routing::KeyP => start_rl(sc, w, KeyPersistentRouting::<u64, JobMsg>::default()).await,
-        Routing::RoundRobin => start_rl(sc, w, RoundRobinRouting::<u64, JobMsg>::default()).await,
-        Routing::Custom => start_rl(sc, w, CustomRouting::<u64, JobMsg, HHash>::new(HHash { table: sc.chash })).await,
+        Routing::Queuer => start_rl(sc, w, QueuerRouting::<u64, HMsg>::default()).await,
+        Routing::Sticky => start_rl(sc, w, StickyQueuerRouting::<u64, HMsg>::default()).await,
+        Routing::KeyP => start_rl(sc, w, KeyPersistentRouting::<u64, HMsg>::default()).await,
+        Routing::RoundRobin => start_rl(sc, w, RoundRobinRouting::<u64, HMsg>::default()).await,
+        Routing::Custom => start_rl(sc, w, CustomRouting::<u64, HMsg, HHash>::new(HHash { table: sc.chash })).await,
     }
 }
 
-async fn client(sc: Arc<FScn>, w: W, f: ActorRef<FactoryMessage<u64, JobMsg>>, ops: Vec<COp>, ci: usize) {
+async fn client(sc: Arc<FScn>, w: W, f: ActorRef<FactoryMessage<u64, HMsg>>, ops: Vec<COp>, ci: usize) {
     for (oi, op) in ops.into_iter().enumerate() {
         yield_once().await;
         match op {
             COp::Pause => {}
             COp::Sleep(ms) => ractor::concurrency::sleep(Duration::from_millis(ms)).await,
             COp::Submit { id, key, ttl, port, beh, yields, sleep_ms } => {
-                let mut job = Job { key, msg: JobMsg { id, beh, yields, sleep_ms }, options: JobOptions::new(ttl.map(Duration::from_millis)), accepted: None };
+                // the FactoryRef-style entry points, one per shape of job
+                let payload = JobMsg { id, beh, yields, sleep_ms, tries: 0, reply: None };
                 let mut rx = None;
-                if port {
-                    let (tx, r) = ractor::concurrency::oneshot::<Option<Job<u64, JobMsg>>>();
+                let ok = if port {
+                    let mut job = Job::with_options(key, RetriableMessage::new(key, payload, MessageRetryStrategy::NoRetry), JobOptions::new(ttl.map(Duration::from_millis)));
+                    let (tx, r) = ractor::concurrency::oneshot::<Option<Job<u64, HMsg>>>();
                     job.accepted = Some(RpcReplyPort::from(tx));
                     rx = Some(r);
-                }
-                let ok = f.cast(FactoryMessage::Dispatch(job)).is_ok();
+                    f.dispatch_job(job).is_ok()
+                } else if ttl.is_some() {
+                    f.dispatch_with_options(key, RetriableMessage::new(key, payload, MessageRetryStrategy::NoRetry), JobOptions::new(ttl.map(Duration::from_millis))).is_ok()
+                } else if id % 2 == 0 {
+                    f.dispatch(key, RetriableMessage::new(key, payload, MessageRetryStrategy::NoRetry)).is_ok()
+                } else {
+                    f.submit_retriable_job(Job::new(key, payload), MessageRetryStrategy::NoRetry).is_ok()
+                };
                 let nd = sc.prioq && sc.nd_keys.contains(&key);
                 obs(
                     "obs.submit",
@@ -525,6 +562,7 @@ async fn client(sc: Arc<FScn>, w: W, f: ActorRef<FactoryMessage<u64, JobMsg>>, o
                         kvi("port", i64::from(port)),
                         kvi("prio", if sc.prioq { prio_of(key) as i64 } else { 0 }),
                         kvi("nd", i64::from(nd)),
+                        kvi("retries", 0),
                     ],
                 );
                 if let Some(rx) = rx {
@@ -538,12 +576,65 @@ async fn client(sc: Arc<FScn>, w: W, f: ActorRef<FactoryMessage<u64, JobMsg>>, o
                     });
                 }
             }
+            COp::SubmitRetriable { id, key, ttl, retries, beh, sleep_ms } => {
+                let payload = JobMsg { id, beh, yields: 0, sleep_ms, tries: 0, reply: None };
+                let mut job = RetriableMessage::from_job(Job::with_options(key, payload, JobOptions::new(ttl.map(Duration::from_millis))), MessageRetryStrategy::Count(retries), f.clone());
+                job.msg.set_retry_hook(move |_k: &u64| obs("obs.retry", 0, vec![kvi("id", id)]));
+                let ok = match f.dispatch_job(job) {
+                    Ok(()) => true,
+                    Err(e) => {
+                        // the factory is gone: the job comes back in the error; disarm it, or dropping it here would fire the hook
+                        if let ractor::MessagingErr::SendErr(FactoryMessage::Dispatch(mut j)) = *e {
+                            j.msg.completed();
+                        }
+                        false
+                    }
+                };
+                let nd = sc.prioq && sc.nd_keys.contains(&key);
+                obs(
+                    "obs.submit",
+                    i64::from(ok),
+                    vec![
+                        kvi("id", id),
+                        kvi("key", key as i64),
+                        kvi("ttl", ttl.map(|t| t as i64).unwrap_or(-1)),
+                        kvi("port", 0),
+                        kvi("prio", if sc.prioq { prio_of(key) as i64 } else { 0 }),
+                        kvi("nd", i64::from(nd)),
+                        kvi("retries", retries as i64),
+                    ],
+                );
+            }
+            COp::Call { id, key, ttl, beh, sleep_ms } => {
+                let nd = sc.prioq && sc.nd_keys.contains(&key);
+                let prioq = sc.prioq;
+                let f2 = f.clone();
+                // the builder runs right before the cast, in the same poll: the cast succeeds iff the factory still admits messages
+                let build = move |port: RpcReplyPort<i64>| {
+                    let ok = (f2.get_status() as i64) < (ractor::ActorStatus::Draining as i64);
+                    obs(
+                        "obs.submit",
+                        i64::from(ok),
+                        vec![kvi("id", id), kvi("key", key as i64), kvi("ttl", ttl.map(|t| t as i64).unwrap_or(-1)), kvi("port", 0),
+                             kvi("prio", if prioq { prio_of(key) as i64 } else { 0 }), kvi("nd", i64::from(nd)), kvi("retries", 0)],
+                    );
+                    RetriableMessage::new(key, JobMsg { id, beh, yields: 0, sleep_ms, tries: 0, reply: Some(port) }, MessageRetryStrategy::NoRetry)
+                };
+                let r = match ttl {
+                    None => f.call_job(key, build, None).await,
+                    Some(t) => f.call_job_with_options(key, build, JobOptions::new(Some(Duration::from_millis(t))), None).await,
+                };
+                match r {
+                    Ok(ractor::rpc::CallResult::Success(v)) => obs("obs.call_ret", 1, vec![kvi("id", id), kvi("v", v)]),
+                    _ => obs("obs.call_ret", 0, vec![kvi("id", id), kvi("v", -1)]),
+                }
+            }
             COp::Adjust(n) => {
-                let ok = f.cast(FactoryMessage::AdjustWorkerPool(n)).is_ok();
+                let ok = f.adjust_worker_pool(n).is_ok();
                 obs("obs.adjust", i64::from(ok), vec![kvi("n", n as i64)]);
             }
             COp::Drain => {
-                let ok = f.cast(FactoryMessage::DrainRequests).is_ok();
+                let ok = f.drain_requests().is_ok();
                 obs("obs.drain", i64::from(ok), vec![]);
             }
             COp::Update { limit, wc } => {
@@ -556,7 +647,7 @@ async fn client(sc: Arc<FScn>, w: W, f: ActorRef<FactoryMessage<u64, JobMsg>>, o
                     stats: None,
                     worker_count: wc,
                 };
-                let ok = f.cast(FactoryMessage::UpdateSettings(req)).is_ok();
+                let ok = f.update_settings(req).is_ok();
                 let (lim, mode) = match limit {
                     None => (-2, "same"),
                     Some((l, true)) => (l as i64, "newest"),
@@ -566,6 +657,22 @@ async fn client(sc: Arc<FScn>, w: W, f: ActorRef<FactoryMessage<u64, JobMsg>>, o
             }
             COp::Query => {
                 for kind in ["q_depth", "q_active", "q_cap"] {
+                    if oi % 2 == 1 {
+                        // through the async helpers: the cast happens in the same poll as this line; it succeeds iff the
+                        // factory still admits messages
+                        let ok = (f.get_status() as i64) < (ractor::ActorStatus::Draining as i64);
+                        obs("obs.q_sent", i64::from(ok), vec![kvs("kind", kind)]);
+                        let r = match kind {
+                            "q_depth" => f.queue_depth(None).await,
+                            "q_active" => f.active_workers(None).await,
+                            _ => f.available_capacity(None).await,
+                        };
+                        match r {
+                            Ok(ractor::rpc::CallResult::Success(v)) => obs("obs.q_reply", 1, vec![kvs("kind", kind), kvi("v", v as i64)]),
+                            _ => obs("obs.q_reply", 0, vec![kvs("kind", kind), kvi("v", -1)]),
+                        }
+                        continue;
+                    }
                     let (tx, rx) = ractor::concurrency::oneshot::<usize>();
                     let port = RpcReplyPort::from(tx);
                     let msg = match kind {
@@ -596,7 +703,7 @@ async fn client(sc: Arc<FScn>, w: W, f: ActorRef<FactoryMessage<u64, JobMsg>>, o
 }
 
 const FKEEP: &[&str] = &[
-    "obs.cfg", "obs.w_new", "obs.w_start", "obs.w_end", "obs.w_kill", "obs.w_stop", "obs.w_closing", "obs.discard", "obs.hook", "obs.submit", "obs.reply", "obs.adjust",
+    "obs.cfg", "obs.w_new", "obs.w_start", "obs.w_end", "obs.w_kill", "obs.w_stop", "obs.w_closing", "obs.discard", "obs.retry", "obs.hook", "obs.submit", "obs.call_ret", "obs.reply", "obs.adjust",
     "obs.drain", "obs.update", "obs.q_sent", "obs.q_reply", "factory.step", "factory.cast", "guard.cleanup",
 ];
 
@@ -797,6 +904,44 @@ pub fn factory_micro(which: &str) -> Vec<FScn> {
                 vec![job(1, 1, Beh::Ok, 20, true, None), job(2, 1, Beh::Ok, 0, true, None), job(3, 2, Beh::Ok, 10, false, None), COp::Sleep(5), job(4, 2, Beh::Ok, 0, true, None), job(5, 3, Beh::Ok, 0, false, None)],
                 vec![COp::Pause, COp::Drain, job(6, 1, Beh::Ok, 0, true, None)],
             ];
+            v.push(s);
+        }
+    }
+    if all || which == "retry" {
+        let rj = |id: i64, key: u64, retries: usize, beh: Beh, sleep_ms: u64, ttl: Option<u64>| COp::SubmitRetriable { id, key, ttl, retries, beh, sleep_ms };
+        // a worker dies mid-job: the job comes back while retries remain (PanicFirst succeeds the second time, Panic / KillMid
+        // use their retries up and are then lost with the worker; a completed job is never seen again)
+        for r in [Routing::Queuer, Routing::KeyP, Routing::Sticky] {
+            let mut s = base_scn(r, 2);
+            s.clients = vec![vec![rj(1, 1, 2, Beh::PanicFirst, 5, None), rj(2, 2, 1, Beh::Panic, 0, None), sub(3, 1), rj(4, 1, 1, Beh::Ok, 0, None), rj(5, 2, 2, Beh::KillMid, 3, None),
+                                  rj(6, 1, 1, Beh::KillAfter, 0, None), COp::Sleep(20), rj(7, 2, 1, Beh::Err, 0, None)]];
+            v.push(s);
+        }
+        // shed jobs re-submit themselves (the documented caveat): newest / oldest, factory queue and worker queue
+        for (r, newest) in [(Routing::Queuer, true), (Routing::Queuer, false), (Routing::KeyP, true), (Routing::KeyP, false)] {
+            let mut s = base_scn(r, 1);
+            s.limit = Some((1, newest));
+            s.clients = vec![vec![job(1, 1, Beh::Ok, 20, false, None), rj(2, 1, 2, Beh::Ok, 0, None), rj(3, 1, 2, Beh::Ok, 0, None), sub(4, 1), COp::Sleep(30), rj(5, 1, 1, Beh::Ok, 0, None)]];
+            v.push(s);
+        }
+        // call_job / call_job_with_options: the caller waits for the worker's answer (or for the port to be dropped)
+        for r in [Routing::Queuer, Routing::KeyP] {
+            let mut s = base_scn(r, 1);
+            s.limit = Some((1, true));
+            s.clients = vec![vec![COp::Call { id: 1, key: 1, ttl: None, beh: Beh::Ok, sleep_ms: 10 }, COp::Call { id: 2, key: 1, ttl: Some(50), beh: Beh::Panic, sleep_ms: 0 },
+                                  COp::Call { id: 3, key: 2, ttl: Some(2), beh: Beh::Ok, sleep_ms: 0 }],
+                             vec![COp::Sleep(2), sub(4, 1), sub(5, 1), COp::Call { id: 6, key: 2, ttl: None, beh: Beh::Ok, sleep_ms: 0 }]];
+            v.push(s);
+        }
+        // TTL: an expired job does not retry; rate limit and drain refusals do
+        let mut s = base_scn(Routing::Queuer, 1);
+        s.rl = Some((1, 50, 1, 1));
+        s.clients = vec![vec![rj(1, 1, 1, Beh::Panic, 20, Some(10)), rj(2, 1, 2, Beh::Ok, 0, None), rj(3, 2, 1, Beh::Ok, 0, Some(500)), COp::Sleep(60), rj(4, 1, 3, Beh::PanicFirst, 0, None)]];
+        v.push(s);
+        for r in [Routing::Queuer, Routing::KeyP] {
+            let mut s = base_scn(r, 1);
+            s.limit = Some((2, false));
+            s.clients = vec![vec![rj(1, 1, 1, Beh::Ok, 15, None), rj(2, 1, 2, Beh::Ok, 5, None), rj(3, 2, 1, Beh::Ok, 0, None), COp::Sleep(3), COp::Drain, rj(4, 1, 2, Beh::Ok, 0, None), rj(5, 2, 1, Beh::Ok, 0, None)]];
             v.push(s);
         }
     }
@@ -1033,6 +1178,61 @@ pub fn rand_shrink_drain(rng: &mut Rng) -> FScn {
     s
 }
 
+/// Random scenarios whose jobs are mostly retriable
+pub fn rand_retry(rng: &mut Rng) -> FScn {
+    let routing = [Routing::Queuer, Routing::Sticky, Routing::KeyP, Routing::RoundRobin, Routing::Custom][rng.below(5)];
+    let mut s = base_scn(routing, 1 + rng.below(3));
+    if rng.chance(1, 3) {
+        s.limit = Some((rng.below(3), rng.chance(1, 2)));
+    }
+    if rng.chance(1, 5) {
+        s.rl = Some((1, [20u64, 40][rng.below(2)], 1 + rng.below(2), rng.below(2)));
+    }
+    s.chash = [rng.next() % 1000, rng.next(), rng.next() % 7];
+    s.horizon_ms = 350;
+    let nkeys = 1 + rng.below(3);
+    let njobs = 3 + rng.below(6);
+    let mut c0 = vec![];
+    for id in 1..=njobs as i64 {
+        let beh = match rng.below(12) {
+            0 | 1 => Beh::PanicFirst,
+            2 => Beh::Panic,
+            3 => Beh::KillMid,
+            4 => Beh::KillAfter,
+            5 => Beh::Err,
+            6 => Beh::StopAfter,
+            _ => Beh::Ok,
+        };
+        let ttl = if rng.chance(1, 6) { Some([5u64, 20, 200][rng.below(3)]) } else { None };
+        if rng.chance(3, 4) {
+            c0.push(COp::SubmitRetriable { id, key: KEYS[rng.below(nkeys)], ttl, retries: rng.below(3), beh, sleep_ms: [0u64, 0, 5, 10, 30][rng.below(5)] });
+        } else {
+            c0.push(COp::Submit { id, key: KEYS[rng.below(nkeys)], ttl, port: rng.chance(1, 2), beh: if beh == Beh::PanicFirst { Beh::Panic } else { beh }, yields: 0, sleep_ms: [0u64, 5, 10][rng.below(3)] });
+        }
+        if rng.chance(1, 5) {
+            c0.push(COp::Sleep([1u64, 5, 15][rng.below(3)]));
+        }
+    }
+    let mut c1 = vec![];
+    for _ in 0..rng.below(3) {
+        c1.push(COp::Sleep([1u64, 5, 15, 40][rng.below(4)]));
+        c1.push(match rng.below(5) {
+            0 | 1 => COp::Adjust(rng.below(MAXW + 1)),
+            2 => COp::Update { limit: Some((rng.below(3), rng.chance(1, 2))), wc: None },
+            3 => COp::KillWorker(rng.below(3)),
+            _ => COp::Drain,
+        });
+    }
+    let mut c3 = vec![];
+    for i in 0..rng.below(3) {
+        c3.push(COp::Sleep([0u64, 2, 8][rng.below(3)]));
+        c3.push(COp::Call { id: njobs as i64 + 1 + i as i64, key: KEYS[rng.below(nkeys)], ttl: if rng.chance(1, 3) { Some([5u64, 50][rng.below(2)]) } else { None },
+                            beh: if rng.chance(1, 5) { Beh::Panic } else { Beh::Ok }, sleep_ms: [0u64, 5, 20][rng.below(3)] });
+    }
+    s.clients = vec![c0, c1, vec![COp::Sleep(280), COp::Query], c3];
+    s
+}
+
 pub fn factory_batch(out: &str, tier: &str, seed: u64, which: &str) -> Value {
     let mut b = Batch::new(Some(out));
     let (dfs_cap, nrand, per) = if tier == "thorough" { (400usize, 3000usize, 3usize) } else { (40usize, 350usize, 2usize) };
@@ -1063,6 +1263,25 @@ pub fn factory_batch(out: &str, tier: &str, seed: u64, which: &str) -> Value {
         let mut rng = Rng(seed ^ 0x66616374);
         for _ in 0..nrand {
             let sc = rand_scn(&mut rng);
+            let mut ex = Explorer::new(Mode::Random, rng.next());
+            for _ in 0..per {
+                ex.begin_run();
+                let (evs, meta, bad) = factory_run(&sc, &mut ex);
+                let h = b.run(meta, &evs);
+                *by_routing.entry(sc.routing.name()).or_insert(0) += 1;
+                if ex.nontrivial {
+                    nontrivial.insert(h);
+                }
+                if bad {
+                    bad_runs += 1;
+                }
+            }
+        }
+    }
+    if which == "all" || which == "random" || which == "rretry" {
+        let mut rng = Rng(seed ^ 0x7265_7472);
+        for _ in 0..nrand / 4 {
+            let sc = rand_retry(&mut rng);
             let mut ex = Explorer::new(Mode::Random, rng.next());
             for _ in 0..per {
                 ex.begin_run();
